@@ -12,13 +12,13 @@ MANIFEST = {
             "The model is tied to /repo by a differential run of the real ParseFSDir/ParseFSEntries on generated in-memory directories "
             "(parser/fsx/memfs and an own FileSystem with sub-directories) against the compiled model, plus an independent restatement of the property "
             "evaluated on the implementation's package map.",
-    "note": "trusted: Lean kernel (+propext/Classical.choice/Quot.sound); hand-written model tied only by the differential run (generator quality bounds it); "
+    "note": "trusted: Lean kernel (+propext/Classical.choice/Quot.sound); hand-written model of the directory loop tied by the differential run and a source fingerprint (a reviewed expectation file), defaultClassKind by a regenerated table; "
             "what the two parsers do with file *contents* is not modelled: five tiny content kinds enter as the table parseErr/pkgNameOf, validated by the same run; "
             "the class-kind function and the filter are assumed pure (finite tables in the run); fs.Join(dir,name) is taken as identity on the file-name part.",
-    "technique": "Lean 4 proof (case analysis of the extension switch, induction over the listing fold) + differential correspondence model vs real ParseFSDir/ParseFSEntries",
+    "technique": "Lean 4 proof (case analysis of the extension switch, induction over the listing fold) + translator tie (defaultClassKind switch regenerated as a table, C34_defaultClassKind_is_source; fingerprints of ParseFSDir/ParseFSEntry/ParseFSEntries/filter/reqPkg) + differential correspondence model vs real ParseFSDir/ParseFSEntries",
 }
 
-RULE = ("exhaustive single-entry directories over 17 stems x 19 extensions x {nil, 4 class-kind answers} x ParseGoAsGoPlus "
+RULE = ("exhaustive single-entry directories over (17 stems x 19 extensions + near-miss names: prefix/suffix/infix extensions, truncations and case variants of every literal the code compares with - main.spx, gop_autogen, _, _test.gox, .xgo/.gop/.go/.gox/.spx/.gsh/.gmx ... - alone and behind stems) x {nil, 4 class-kind answers} x ParseGoAsGoPlus "
         "(thorough: x 5 content kinds x filter/dir/class-mode variants), for ParseFSDir and ParseFSEntries; plus random listings of 0-8 entries "
         "(names from stem+ext pools or random bytes, sub-directories, duplicates, 5 content kinds incl. class-only/non-class-only/broken/no-package-clause, "
         "class-kind = nil | arbitrary table | extension-based, filter tables, extra mode bits, missing directory); "
@@ -38,4 +38,4 @@ def run(ctx):
         "class-kind functions and filters are pure functions of the file name / FileInfo",
         "names in one directory listing are distinct (C34_grouping, C34_file_in_one_package); listings with a repeated name are compared differentially only",
     ]
-    common.standard(ctx, "GopModel.Props.C34", "c34", 3000, 60000, RULE, driver="drv_purea")
+    common.standard(ctx, "GopModel.Props.C34", "c34", 3000, 60000, RULE, extract=("dirclassify",), driver="drv_purea")
